@@ -42,8 +42,17 @@ func verifMtree(es []models.Entry) (string, bool) {
 // Verif_C03_ArchMtree: .MTREE lists .PKGINFO first and then every payload
 // entry with its type, mode, time, size, MD5 and SHA-256 of the bytes shipped,
 // and link target; .PKGINFO size is the sum of the file sizes.
-func Verif_C03_ArchMtree() {
-	sc := scen.Payload(scen.Options{SymContent: true, Second: -1})
+func Verif_C03_ArchMtree() { verifArchMtree(scen.Options{SymContent: true, Second: -1}) }
+
+// Verif_C03_ArchMtreeSources: the same for entries found on disk (tree,
+// directory source, on-disk symlink with clean and unclean link text) and for
+// source files whose on-disk mtime has a fractional part.
+func Verif_C03_ArchMtreeSources() {
+	verifArchMtree(scen.Options{SubSecond: true, NoPkgTime: v.NondetBool("pkg.mtime.unset"), NoInfoFork: true, Second: -4})
+}
+
+func verifArchMtree(o scen.Options) {
+	sc := scen.Payload(o)
 	es, ok := verifBuild(sc)
 	v.Reach("C03.arch.ran")
 	if !ok {
@@ -92,9 +101,25 @@ func Verif_C03_ArchMtree() {
 // Verif_C04_ArchStructure: payload, .PKGINFO, .MTREE, then .INSTALL iff a script is configured.
 func Verif_C04_ArchStructure() {
 	sc := scen.Payload(scen.Options{SymDst: true, Second: -1})
-	withScript := v.NondetBool("script")
+	// none, or exactly one of the six scriptlets archlinux knows (each alone must bring .INSTALL)
+	which := v.NondetChoice("script", 7)
+	withScript := which > 0
 	if withScript {
-		sc.Info.Scripts.PostInstall = models.AddFile("/scripts/post", []byte("x"), 0o644, time.Unix(1500000000, 0).UTC())
+		p := models.AddFile("/scripts/post", []byte("x"), 0o644, time.Unix(1500000000, 0).UTC())
+		switch which {
+		case 1:
+			sc.Info.Scripts.PreInstall = p
+		case 2:
+			sc.Info.Scripts.PostInstall = p
+		case 3:
+			sc.Info.Scripts.PreRemove = p
+		case 4:
+			sc.Info.Scripts.PostRemove = p
+		case 5:
+			sc.Info.ArchLinux.Scripts.PreUpgrade = p
+		case 6:
+			sc.Info.ArchLinux.Scripts.PostUpgrade = p
+		}
 	}
 	es, ok := verifBuild(sc)
 	v.Reach("C04.arch.ran")
